@@ -9,6 +9,7 @@
      layout engine is stable on it (`ft (z ++ "\n") = some z`).  That hypothesis — the layout fixed
      point itself — is NOT proved anywhere; it is only observed by the harness. -/
 import JrsVerif.Model.FmtDiag
+import JrsVerif.Proofs.FmtDiagSink
 
 namespace JrsVerif.FmtDiag
 open JrsVerif.Generated.FmtRange
@@ -237,3 +238,283 @@ example :
   refine ⟨?_, ?_, ?_, ?_⟩ <;> simp [main, loop]
 
 end JrsVerif.FmtMain
+
+/-! ## The rowan parser's event protocol and tree builder (`event.rs: Sink::finish`, rowan's
+    `GreenNodeBuilder`), the two trivia sites, and what "same tokens" means for the classifiers.
+    Model: `Model/FmtDiagSink.lean`; tie: the REAL event list and lexemes of every generated input
+    (cfg(jrsonnet_verif) hook) are run through `FmtSink.finish` and compared with the real tree. -/
+namespace JrsVerif.FmtSink
+open JrsVerif.Generated.FmtTrivia
+
+/-- C20.2 the two places that decide what is trivia — `parse()`'s filter (lib.rs) and
+    `Sink::skip_whitespace` (event.rs) — are extracted separately and name the same kinds.
+    (`sink_code_complete` below needs exactly this.) -/
+theorem trivia_sites_agree : ∀ k, sinkTriv k = parseTriv k := by
+  have h : sinkSiteTrivia = parseSiteTrivia := by decide
+  intro k; unfold sinkTriv parseTriv; rw [h]
+
+/-- C20.2 `text_offset`'s `panic!("hard oob")` is dead code: for EVERY event list and lexeme list,
+    whatever else happens, that site is not reached (`offset` never passes `lexemes.len()`). -/
+theorem sink_never_hard_oob (triv : Nat → Bool) (evs : List Event) (lex : List Lexeme) :
+    finish triv evs lex ≠ .error .hardOob := by
+  unfold finish
+  have h := go_post triv lex evs.length evs 0 {} ⟨Nat.zero_le _, rfl⟩
+  cases hg : go triv lex evs.length evs 0 {} with
+  | error p => rw [hg] at h; simp only []; intro hc; cases hc; exact h rfl
+  | ok s =>
+    simp only []
+    cases hb : build s.ops.reverse [] [] with
+    | error p =>
+      simp only []
+      intro hc; cases hc
+      -- the builder has no such site
+      have : ∀ ops st cur, build ops st cur ≠ .error .hardOob := by
+        intro ops
+        induction ops with
+        | nil => intro st cur; unfold build; split <;> simp
+        | cons o ops ih =>
+          intro st cur
+          cases o with
+          | opn k => simpa [build] using ih _ _
+          | tok k i => simpa [build] using ih _ _
+          | cls =>
+            unfold build
+            cases st with
+            | nil => simp
+            | cons f st => simpa using ih _ _
+      exact this _ _ _ hb
+    | ok t => simp
+
+/-- C20.2 `sink_yield`: whenever `Sink::finish` returns, the leaves of the tree it built are the
+    lexemes `0, 1, .., off-1` — each given to the builder exactly once, in input order, none
+    duplicated, none skipped, whatever the event list was (error recovery included).  So the text of
+    the tree is a prefix of the input, byte for byte. -/
+theorem sink_yield (triv : Nat → Bool) (evs : List Event) (lex : List Lexeme) (r : Parse)
+    (h : finish triv evs lex = .ok r) : r.tree.leaves = List.range r.off ∧ r.off ≤ lex.length := by
+  unfold finish at h
+  have hp := go_post triv lex evs.length evs 0 {} ⟨Nat.zero_le _, rfl⟩
+  cases hg : go triv lex evs.length evs 0 {} with
+  | error p => rw [hg] at h; cases h
+  | ok s =>
+    rw [hg] at h hp
+    simp only [] at h
+    cases hb : build s.ops.reverse [] [] with
+    | error p => rw [hb] at h; cases h
+    | ok t =>
+      rw [hb] at h; cases h
+      have hl := build_leaves _ _ _ _ hb
+      simp only [stackLeaves, Tree.leavesL, List.reverse_nil, List.nil_append] at hl
+      refine ⟨?_, hp.1⟩
+      show t.leaves = List.range s.off
+      rw [hl, opToks_reverse, hp.2, List.reverse_reverse]
+
+theorem tokenKinds_length (evs : List Event) : (tokenKinds evs).length = tkFrom evs 0 := by
+  unfold tokenKinds tkFrom
+  simp only [List.drop_zero]
+  induction evs with
+  | nil => rfl
+  | cons e es ih => cases e <;> simp [List.filterMap_cons, List.countP_cons, Event.isToken, ih]
+
+theorem parserKinds_length (triv : Nat → Bool) (lex : List Lexeme) :
+    (parserKinds triv lex).length = nt triv lex lex.length := by
+  unfold parserKinds nt
+  rw [List.take_of_length_le (Nat.le_refl _), List.filter_map, List.length_map]
+  rfl
+
+theorem rest_is_trivia (triv : Nat → Bool) (lex : List Lexeme) (off : Nat)
+    (h : nt triv lex off = nt triv lex lex.length) : ∀ l ∈ lex.drop off, triv l.kind = true := by
+  unfold nt at h
+  rw [List.take_of_length_le (Nat.le_refl _)] at h
+  have hs : lex = lex.take off ++ lex.drop off := (List.take_append_drop off lex).symm
+  rw [hs, List.filter_append, List.length_append] at h
+  rw [← hs] at h
+  have h0 : ((lex.drop off).filter (fun l => !triv l.kind)).length = 0 := by omega
+  have := List.filter_eq_nil_iff.mp (List.eq_nil_of_length_eq_zero h0)
+  intro l hl
+  simpa using this l hl
+
+/-- C20.2 `sink_code_complete` — the theorem that NEEDS the two trivia sites to agree.
+    `ptriv` = what `parse()` filtered out before parsing, `triv` = what `skip_whitespace` re-attaches.
+    If they agree, the parser's first event is the root `Start` (`Parser::parse` opens `m` first) and
+    the parser emitted one `Token` per kind it was given (`tokenKinds evs` has the length of
+    `parserKinds`), then everything the tree does not contain is trivia: no code lexeme is lost. -/
+theorem sink_code_complete (triv ptriv : Nat → Bool) (agree : ∀ k, triv k = ptriv k)
+    (evs : List Event) (lex : List Lexeme) (r : Parse)
+    (hfirst : ∃ k fp, evs[0]? = some (.start k fp))
+    (hcount : (tokenKinds evs).length = (parserKinds ptriv lex).length)
+    (h : finish triv evs lex = .ok r) : ∀ l ∈ lex.drop r.off, triv l.kind = true := by
+  have hfun : triv = ptriv := funext agree
+  subst hfun
+  unfold finish at h
+  have hjk := go_jk triv lex evs.length (tkFrom evs 0) evs 0 {}
+    ⟨rfl, fun _ => .inr hfirst, by simp [nt]⟩
+  cases hg : go triv lex evs.length evs 0 {} with
+  | error p => rw [hg] at h; cases h
+  | ok s =>
+    rw [hg] at h hjk
+    simp only [] at h
+    cases hb : build s.ops.reverse [] [] with
+    | error p => rw [hb] at h; cases h
+    | ok t =>
+      rw [hb] at h; cases h
+      apply rest_is_trivia
+      show nt triv lex s.off = _
+      have : nt triv lex s.off = tkFrom evs 0 := hjk
+      rw [this, ← tokenKinds_length, hcount, parserKinds_length]
+
+/-- C20.2 (part of DESIGN `sink_total`): under the same hypotheses with `≤` — the parser emitted at
+    most one `Token` per kind it was given — `self.lexemes[self.offset]` in `Sink::token` is in bounds. -/
+theorem sink_token_index_safe (triv ptriv : Nat → Bool) (agree : ∀ k, triv k = ptriv k)
+    (evs : List Event) (lex : List Lexeme)
+    (hfirst : ∃ k fp, evs[0]? = some (.start k fp))
+    (hcount : (tokenKinds evs).length ≤ (parserKinds ptriv lex).length) :
+    finish triv evs lex ≠ .error .lexemeIndex := by
+  have hfun : triv = ptriv := funext agree
+  subst hfun
+  unfold finish
+  have hjk := go_jk triv lex evs.length (tkFrom evs 0) evs 0 {}
+    ⟨rfl, fun _ => .inr hfirst, by simp [nt]⟩
+  cases hg : go triv lex evs.length evs 0 {} with
+  | error p =>
+    rw [hg] at hjk
+    simp only []
+    intro hc; cases hc
+    have := hjk rfl
+    rw [← tokenKinds_length, ← parserKinds_length] at this
+    omega
+  | ok s =>
+    simp only []
+    cases hb : build s.ops.reverse [] [] with
+    | error p =>
+      simp only []
+      intro hc; cases hc
+      have : ∀ ops st cur, build ops st cur ≠ .error .lexemeIndex := by
+        intro ops
+        induction ops with
+        | nil => intro st cur; unfold build; split <;> simp
+        | cons o ops ih =>
+          intro st cur
+          cases o with
+          | opn k => simpa [build] using ih _ _
+          | tok k i => simpa [build] using ih _ _
+          | cls =>
+            unfold build
+            cases st with
+            | nil => simp
+            | cons f st => simpa using ih _ _
+      exact this _ _ _ hb
+    | ok t => simp
+
+/-- C20.2 what goes wrong when the sites DISAGREE (the bug an independent tester planted): a kind
+    (here 60 = ERROR_COMMENT_TOO_SHORT) that `parse()` filters out but `skip_whitespace` does not
+    re-attach is taken for the next code token; the tree ends before the input does and the last
+    code lexeme (index 2, kind 7) is not in it.  Events = what the parser emits for kinds `[7, 7]`. -/
+theorem trivia_disagreement_loses_code :
+    let lex : List Lexeme := [⟨7, 0, 1⟩, ⟨60, 1, 4⟩, ⟨7, 4, 5⟩]
+    let evs : List Event := [.start 100 0, .token 7, .token 7, .finish 0 false]
+    let ptriv : Nat → Bool := fun k => k == 56 || k == 60
+    let striv : Nat → Bool := fun k => k == 56
+    tokenKinds evs = parserKinds ptriv lex ∧
+    finishOff ptriv evs lex = some 3 ∧ finishLeaves ptriv evs lex = some [0, 1, 2] ∧
+    finishOff striv evs lex = some 2 ∧ finishLeaves striv evs lex = some [0, 1] := by
+  decide +kernel
+
+/-- non-vacuity of `sink_yield` / `sink_code_complete`: the event list of `a + b` (forward-parent
+    chains 1→4→7 and 8→11, as the real parser emits it) with blanks around `+` is well-formed and
+    yields all five lexemes -/
+example :
+    let lex : List Lexeme := [⟨72, 0, 1⟩, ⟨56, 1, 2⟩, ⟨21, 2, 3⟩, ⟨56, 3, 4⟩, ⟨72, 4, 5⟩]
+    let evs : List Event :=
+      [.start 150 0, .start 120 3, .token 72, .finish 0 false, .start 110 3, .finish 0 false, .token 21,
+       .start 121 0, .start 120 3, .token 72, .finish 0 false, .start 110 0, .finish 0 false,
+       .finish 0 false, .finish 0 false]
+    wfb parseTriv evs lex = true ∧ finishOff sinkTriv evs lex = some 5 ∧
+    finishLeaves sinkTriv evs lex = some [0, 1, 2, 3, 4] := by
+  decide +kernel
+
+/-- Marker API hazard the drop-bomb does NOT exclude: `forget` on the marker returned by `precede`
+    leaves a `forward_parent` pointing at a `Noop`: the list is not pointer-well-formed and
+    `Sink::finish` reaches `unreachable!()`.  (parser.rs completes every marker it gets from `precede`.) -/
+theorem forget_after_precede_reaches_unreachable :
+    (do
+      let (e, m0) := Marker.start []
+      let e := Marker.bump e 7
+      let (e, s, _) ← Marker.complete e m0 120 false
+      let (e, m) ← Marker.precede e s
+      let e ← Marker.forget e m
+      pure (ptrOKb e, finishPanic sinkTriv e [⟨7, 0, 1⟩])) = some (false, some .unreachableStart) := by
+  decide +kernel
+
+/-- the Marker API calls `expr` / `expr_binding_power` make for `a + b` (start, bump, complete,
+    wrap(EXPR, false), precede, complete ..) produce exactly the event list of the example above:
+    well-formed, and the sink consumes all five lexemes -/
+theorem marker_api_binary_wf :
+    (do
+      let (e, root) := Marker.start []
+      let (e, m) := Marker.start e
+      let e := Marker.bump e 72
+      let (e, s, f) ← Marker.complete e m 120 false
+      let (e, s, _) ← Marker.wrap e s f 110 false false
+      let e := Marker.bump e 21
+      let (e, m) ← Marker.precede e s
+      let (e, m2) := Marker.start e
+      let e := Marker.bump e 72
+      let (e, s2, _) ← Marker.complete e m2 120 false
+      let (e, m3) ← Marker.precede e s2
+      let (e, _, _) ← Marker.complete e m3 110 false
+      let (e, _, _) ← Marker.complete e m 121 false
+      let (e, _, _) ← Marker.complete e root 150 false
+      let lex : List Lexeme := [⟨72, 0, 1⟩, ⟨56, 1, 2⟩, ⟨21, 2, 3⟩, ⟨56, 3, 4⟩, ⟨72, 4, 5⟩]
+      pure (e, wfb parseTriv e lex, finishOff sinkTriv e lex)) =
+    some ([.start 150 0, .start 120 3, .token 72, .finish 0 false, .start 110 3, .finish 0 false, .token 21,
+       .start 121 0, .start 120 3, .token 72, .finish 0 false, .start 110 0, .finish 0 false,
+       .finish 0 false, .finish 0 false], true, some 5) := by
+  decide +kernel
+
+/-- `wrap(kind, previous_pos = true)` (TRUE_EXPR / FALSE_EXPR / SLICE_DESC_* / error wrappers): the
+    wrapper `Finish` is reached through `wrapper`, both nodes close at the wrapped node's end -/
+theorem marker_api_wrap_prev_wf :
+    (do
+      let (e, root) := Marker.start []
+      let (e, m) := Marker.start e
+      let e := Marker.bump e 72
+      let (e, s, f) ← Marker.complete e m 120 false
+      let (e, _, _) ← Marker.wrap e s f 130 true true
+      let e := Marker.bump e 21
+      let (e, _, _) ← Marker.complete e root 150 false
+      let lex : List Lexeme := [⟨72, 0, 1⟩, ⟨56, 1, 2⟩, ⟨21, 2, 3⟩]
+      pure (e, wfb parseTriv e lex, finishOff sinkTriv e lex)) =
+    some ([.start 150 0, .start 120 3, .token 72, .finish 2 false, .start 130 0, .finish 0 true, .token 21,
+       .finish 0 false], true, some 3) := by
+  decide +kernel
+
+/-- C20 (classifiers) MEANING of "same tokens": `SameTok` = the non-trivia lexemes (kind and text)
+    of the two texts are the same sequence.  The check the driver runs on the real lexer's output of
+    both formatter passes (`sameTokB`, two cursors) decides exactly that. -/
+theorem same_tokens_check_sound (triv : Nat → Bool) (a b : List KT) :
+    sameTokB triv a b = true ↔ SameTok triv a b := sameTokB_iff triv a b
+
+/-- the comma-tolerant variant the layout classifiers use: the driver's check decides `SameTokC`
+    (equal non-trivia lexeme sequences after dropping `,` before `)`, `]`, `}`) -/
+theorem same_tokens_mod_comma_sound (triv : Nat → Bool) (comma : Nat) (closers : List Nat) (a b : List KT) :
+    sameTokCB triv comma closers a b = true ↔ SameTokC triv comma closers a b := by
+  unfold sameTokCB SameTokC
+  rw [sameTokB_iff]
+  unfold SameTok codeToks
+  have hf : ∀ l : List KT, l.filter (fun _ => true) = l := fun l => List.filter_eq_self.mpr (by simp)
+  simp only [Bool.not_false, hf]
+
+/-- strict "same tokens" implies the comma-tolerant one (so a case Lean rejects under `SameTokC`
+    changed a real code token) -/
+theorem same_tokens_strict_implies_mod_comma (triv : Nat → Bool) (comma : Nat) (closers : List Nat)
+    (a b : List KT) (h : SameTok triv a b) : SameTokC triv comma closers a b := by
+  unfold SameTokC; unfold SameTok at h; rw [h]
+
+/-- same tokens is an equivalence that ignores every trivia lexeme: inserting or deleting trivia
+    anywhere on either side does not change the verdict -/
+theorem same_tokens_ignores_trivia (triv : Nat → Bool) (a1 a2 b : List KT) (t : KT) (ht : triv t.1 = true) :
+    SameTok triv (a1 ++ t :: a2) b ↔ SameTok triv (a1 ++ a2) b := by
+  unfold SameTok codeToks
+  simp [List.filter_append, ht]
+
+end JrsVerif.FmtSink
